@@ -2,7 +2,7 @@ package main
 
 // C05, streams c05.text and c05.parse.
 //
-//   c05.text   byte strings handed to Interpreter.Query and Interpreter.Exec (real code, fresh
+//   c05.text   byte strings handed to Interpreter.Query, Interpreter.Exec and (as user_input) to read/1 (real code, fresh
 //              interpreters, isolated worker): grammar-generated valid text, mutated; raw bytes; every
 //              string of ≤ k tokens over a 16-token alphabet.  Oracle (Lean driver): both calls
 //              returned, nothing is a panic residue, run-time errors are ISO error terms.
@@ -482,12 +482,23 @@ func runC05Text(payload string) string {
 		e = c05TextResult(true, i.ExecContext(ctx, text))
 		cancel()
 	}
+	// read/1 from user_input holding the text (twice: the second read continues where the first stopped)
+	var rd string
+	{
+		i, _ := newInterp(text)
+		ctx, cancel := context.WithTimeout(context.Background(), c05GoalTimeout)
+		ok := false
+		_, err := engine.Call(&i.VM, compound(",", compound("read", engine.NewVariable()), compound("read", engine.NewVariable())),
+			func(*engine.Env) *engine.Promise { ok = true; return engine.Bool(true) }, nil).Force(ctx)
+		rd = c05TextResult(ok, err)
+		cancel()
+	}
 	nt := 0
-	if q != "ok" || e != "ok" {
+	if q != "ok" || e != "ok" || rd != "ok" {
 		nt = 1 // an error path of the reader or of the loader was taken
 	}
-	qc, ec := strings.Fields(q)[0], strings.Fields(e)[0]
-	return fmt.Sprintf("q %s ; e %s ### nt=%d kind=%s q=%s e=%s", q, e, nt, f[0], qc, ec)
+	qc, ec, rc := strings.Fields(q)[0], strings.Fields(e)[0], strings.Fields(rd)[0]
+	return fmt.Sprintf("q %s ; e %s ; r %s ### nt=%d kind=%s q=%s e=%s r=%s", q, e, rd, nt, f[0], qc, ec, rc)
 }
 
 // ---------------------------------------------------------------------------
